@@ -67,7 +67,7 @@ STATUS_CLASS = {"is_informational": 100, "is_success": 200, "is_redirection": 30
 CTORS.update({("CallHolder", "WithoutBody"): ("HvWithoutBody", "Phase"), ("CallHolder", "WithBody"): ("HvWithBody", "Phase")})
 CTORS.update({("Status", "Complete"): ("HpComplete", "usize"), ("Status", "Partial"): ("HpPartial", None)})
 CTORS.update({("RedirectAuthHeaders", "Never"): ("Never", None), ("RedirectAuthHeaders", "SameHost"): ("SameHost", None)})
-ENUM_EQB = {"Dechunker": "dechunker_eqb", "Method": "method_eqb"}
+ENUM_EQB = {"Dechunker": "dechunker_eqb", "Method": "method_eqb", "CloseReason": "reason_eqb"}
 STRUCTS = {"Pos": ["index_in", "index_out"]}
 # records flattened into their fields when they are the `self` of a method: impl type -> [(field, rust type)]
 SELF_RECORDS = {"BodyWriter": [("mode", "SenderMode"), ("ended", "bool")]}
@@ -1970,7 +1970,7 @@ FLOWFUNCS = [
     # body is expected, the body mode reported to the caller, the three questions asked of the response body reader
     dict(coq="gen_add_close_reason", file="src/client/flow.rs", impl=None, rust="add_close_reason",
          subst=[(r"reasons\.push\(reason\);", "reasons.push(reason);")],
-         params=[("reasons", "mutval", "list reason", "reasons"), ("reason", "val", "reason", None)], rust_ret="()"),
+         params=[("reasons", "mutval", "list reason", "reasons"), ("reason", "val", "reason", "CloseReason")], rust_ret="()"),
     dict(coq="gen_explain", file="src/client/flow.rs", impl=r"impl CloseReason", rust="explain", kind="plain", format_bytes=True,
          subst=[(r"match self", "match reason")],
          params=[("reason", "val", "reason", None)], rust_ret="&'static str"),
